@@ -298,6 +298,7 @@ def run_replay(path):
     if not os.path.isabs(path):
         path = os.path.join(C.VERIF, path)
     rp = json.load(open(path))
+    rp["_file"] = os.path.basename(path)
     prop_id = rp["property"]
     mod = load_mod(prop_id)
     if hasattr(mod, "replay"):
